@@ -214,6 +214,13 @@ func init() {
 	})
 	ifaceModels[bk+"MintCoins"] = func(x *Exec, st *State, ci *callInfo, recv Val, a []Val, k func(*State, Val)) {
 		x.usedModels[bk+"MintCoins"] = "err != nil leaves state unchanged; err == nil: Supply[d] += a and module balance += a for each coin (zero coins no-op); may fail for any reason"
+		if x.root != nil && x.root.Prop == "C05" {
+			// no-panic claims only: the SDK's MintCoins fails (returns an error) only for invalid coins; with valid
+			// denoms (not modelled) that is a non-positive amount. The Minter permission is the F obligation
+			// module-account-permissions.
+			x.usedModels[bk+"MintCoins"] = "C05 only: err != nil only when some amount is not positive (valid denoms assumed; Minter permission: F obligation module-account-permissions); err == nil: Supply[d] += a and module balance += a"
+			x.bankErrOnlyNonPositive = true
+		}
 		x.bankOp(st, ci, a, k, func(st *State, w int, d, am T) T {
 			x.ghostAdd(st, w, "Supply", nil, d, am)
 			x.ghostAdd(st, w, "Bal", ptrT(ghostModuleAddr()), d, am)
@@ -233,6 +240,10 @@ func init() {
 	}
 	ifaceModels[bk+"SendCoinsFromModuleToAccount"] = func(x *Exec, st *State, ci *callInfo, recv Val, a []Val, k func(*State, Val)) {
 		x.usedModels[bk+"SendCoinsFromModuleToAccount"] = "err == nil: recipient is not the (blocked) module account and module balance had >= a; module -= a, account += a"
+		if x.root != nil && x.root.Prop == "C05" {
+			x.usedModels[bk+"SendCoinsFromModuleToAccount"] = "C05 only: err != nil only when the recipient is the (blocked) module account or the module balance is insufficient; err == nil: module -= a, account += a"
+			x.bankErrOnlyInsufficient = true
+		}
 		to := tt(a[2])
 		x.bankOp(st, ci, []Val{a[0], a[1], a[3]}, k, func(st *State, w int, d, am T) T {
 			pre := And(Ge(sel2(st.Worlds[w]["Bal"], ghostModuleAddr(), d), am), Not(Eq(to, ghostModuleAddr())))
@@ -389,16 +400,22 @@ func (x *Exec) bankOp(st *State, ci *callInfo, a []Val, k func(*State, Val), app
 	x.paths++
 	// success path
 	pre := TTrue
+	allPositive := TTrue
 	for _, c := range coins {
 		d, am := coinOf(x, c)
 		x.panicIf(st, Lt(am, IntLit(0)), "bank-negative-coin", ci.pos)
 		p := apply(st, w, d, am)
 		pre = And(pre, p)
+		allPositive = And(allPositive, Gt(am, IntLit(0)))
 	}
 	st.assume(pre, "bank operation succeeded => sufficient funds")
 	if x.bankErrOnlyInsufficient {
 		x.bankErrOnlyInsufficient = false
-		es.assume(Not(pre), "burning fails only for insufficient funds")
+		es.assume(Not(pre), "this bank operation fails only when its precondition on the balances / recipient does not hold")
+	}
+	if x.bankErrOnlyNonPositive {
+		x.bankErrOnlyNonPositive = false
+		es.assume(Not(allPositive), "minting fails only for a non-positive amount")
 	}
 	x.tryPath(func() { k(st, &ErrV{IsNil: TTrue}) })
 	x.tryPath(func() { k(es, &ErrV{IsNil: TFalse}) })
